@@ -462,7 +462,10 @@ class Gen:
         'print using "& #"; "x"; 2', 'kill "f.txt"', 'bsave "f", 0, 10',
         'bload "f", 0', 'width 40', 'screen 1', 'color 31, 7, 15',
         'print using "###"; 1000', 'def seg = &hb800', 'bsave "g", 0, 10', 'poke 1048, 65',
-        'def seg = 0', 'x9# = peek(1047)',
+        'def seg = 0', 'x9# = peek(1047)', 'x9# = 1d308 * 10', 'x9# = 1d308 : y9% = x9#',
+        'print string$(3, 300)', 'print string$(2, -1)', 'print using "##"; 1; 2',
+        'print using "##"; "x"', 'print using "## ##"; 1', 'print using "!"; ""', 'print using "&"; 5', 'x9# = 1d308 : print int(x9#)', 'x9# = 1d308 : print space$(x9#)',
+        'x9! = 3e38 : x9! = x9! * 10', 'print val("1e999")', 'locate 300, 1', 'sound 20, 1',
     )
 
     def raw_stmt(self, sc):
